@@ -364,11 +364,33 @@ class C02Once(Base):
         super().__init__(case, phase)
         self.jobs_seen: Dict[str, int] = {}
         self.by_inst: Dict[str, List[int]] = defaultdict(list)
+        self.preps: Counter = Counter()
+        self.prep_faults: Counter = Counter()
 
     def on_event(self, ev):
         k = ev['k']
         led = self.drv.ledger
-        if k == 'SUBMIT_CMD':
+        if k == 'PREP_FAULT':
+            self.prep_faults[ev['job'].rsplit('/', 1)[0]] += 1
+            self.n['job_file_faults_injected'] += 1
+        elif k == 'PREP':
+            # every entry into job preparation from a non-preparing status
+            # is a (re)submission attempt, whether or not a job results
+            for t in ev['tasks']:
+                if t['status'] == 'preparing' or t['manual'] or \
+                        t['id'] in led.manual or \
+                        t['name'] not in self.gt['tasks']:
+                    continue
+                self.preps[t['id']] += 1
+                self.n['preparations'] += 1
+                td = self.gt['tasks'][t['name']]
+                bound = (td['exec_retries'] + 1) * (td['submit_retries'] + 1)
+                if self.preps[t['id']] > bound:
+                    self.v('too-many-preparations',
+                           f'{t["id"]} entered job preparation '
+                           f'{self.preps[t["id"]]} times, bound (N+1)(M+1) = '
+                           f'{bound}', t)
+        elif k == 'SUBMIT_CMD':
             for j in ev['jobs']:
                 p, n, num = j.split('/')
                 tid = f'{p}/{n}'
@@ -416,7 +438,8 @@ class C02Once(Base):
                 self.n['submit_failed_completions'] += 1
                 ns = sum(1 for j in w.jobs.values()
                          if j.name == n and j.point == str(p)
-                         and j.state == 'submit-failed')
+                         and j.state == 'submit-failed'
+                         ) + self.prep_faults[tid]
                 if ns < td['submit_retries'] + 1:
                     self.v('submit-failed-before-retries-exhausted',
                            f'{tid} completed submit-failed after {ns} '
